@@ -619,7 +619,10 @@ fn evaluate(cli: &Cli, report: &mut Report, cases: Vec<Case>) {
         // judge, not a dependence on segmentation. Read off the client's own log only.
         let long_pause = c.variant.client.seg.splits.iter().any(|(_, cuts)| cuts.iter().any(|(_, p)| *p >= Duration::from_secs(16)));
         if long_pause {
-            let held_back = facts(&v).keep_alives.iter().any(|(id, t)| {
+            // (only Keep Alives that the unsegmented run was sent too: one that comes after the moment
+            // the unsegmented run was over is itself a difference)
+            let base_over = b.client.received.last().map(|r| r.t_ns).unwrap_or(0);
+            let held_back = facts(&v).keep_alives.iter().filter(|(_, t)| *t <= base_over).any(|(id, t)| {
                 let echo = v.client.sent.iter().find(|s| s.label.starts_with("KeepAliveEcho") && matches!(Pkt::decode(vp_common::refcodec::Phase::Config, vp_common::refcodec::Dir::Serverbound, 0x04, &s.plain[2..]), Ok(Pkt::ConfKeepAliveIn { id: e }) if e == *id));
                 match echo {
                     Some(s) => s.t_ns + 2 * MS >= *t + 16_000 * MS,
